@@ -35,3 +35,4 @@ CFG = {'level': 'exploration',
                  'ref/refzip transcribes the documented restrictions correctly (doc-vs-code corners are skipped and counted as unspecified:* classes)',
                  'SHA-256 collisions do not occur',
                  'the sandbox file system is case-sensitive and accepts arbitrary UTF-8 and non-UTF-8 names']}
+CFG['level_text'] += ' Every small honest archive is created a second time into a writer that fails at a case-derived point (0, 1, half, last byte, random): creation must then report an error.'
